@@ -449,6 +449,7 @@ func (p *sparser) parsePrimary() Expr {
 // ---------- contract blocks ----------
 
 type Clause struct {
+	AllReturns bool
 	Group     string
 	Kind      string   // requires ensures invariant
 	Tags      []string // property ids; empty = always
@@ -690,7 +691,7 @@ func (db *SpecDB) loadFile(path string, lib bool) error {
 				return fail(fmt.Errorf("clause %q outside a block", word))
 			}
 			switch word {
-			case "lensures":
+			case "lensures", "rensures":
 				// "local ensures": like ensures, but may mention local variables; it is asserted at every
 				// return at which all the variables it mentions are defined
 				tags, txt := parseTags(rest)
@@ -698,7 +699,9 @@ func (db *SpecDB) loadFile(path string, lib bool) error {
 				if err != nil {
 					return fail(err)
 				}
-				c := &Clause{Kind: "lensures", Tags: tags, Text: txt, E: e, Where: where, Ord: len(cur.LEnsures) + 1}
+				// rensures: like lensures, but asserted at EVERY return: a local that is not defined on the
+				// path to a return denotes an arbitrary value there
+				c := &Clause{Kind: "lensures", Tags: tags, Text: txt, E: e, Where: where, Ord: len(cur.LEnsures) + 1, AllReturns: word == "rensures"}
 				cur.LEnsures = append(cur.LEnsures, c)
 				for _, t := range tags {
 					cur.Props[t] = true
